@@ -171,7 +171,17 @@ func suiteC01(c *ctx) {
 	var cases []*WCase
 	for i := 0; i < c.n(170); i++ {
 		s := pickSetting(r, []string{"flate"}, r.Intn(5) != 0)
-		cases = append(cases, genHistory(r, "C01", i, s, i%9 == 0, i%2 == 0))
+		cs := genHistory(r, "C01", i, s, i%9 == 0, i%2 == 0)
+		if i%10 == 3 && s.Accelerated() {
+			// token-count limit of a block reached inside a long run
+			n := r.Range(34000, 75000)
+			cs.Datas[0] = DataSpec{Gen: "tokedge", Seed: r.U64(), N: n}
+			cs.Ops = append(partition(r, n, 0, s, false), Op{K: "c"})
+			if len(cs.Ops) > 40 {
+				cs.Ops = []Op{{K: "w", N: n}, {K: "c"}}
+			}
+		}
+		cases = append(cases, cs)
 	}
 	parallelJ(len(cases), func(i int) interface{} { return cases[i] }, func(i int) { checkHistory(c.rep, c.pool, cases[i]) })
 	filterViolations(c.rep, func(o string) bool { return o != "window" && !isFlushOracle(o) })
